@@ -139,7 +139,8 @@ type Op struct {
 	InterB    int    `json:"inter_b,omitempty"`
 	Worker    bool   `json:"worker,omitempty"` // run through one real worker step (queue bookkeeping observed)
 	// claim faults (C06): 1 claim create -> server error, 2 claim create applied but reported as timeout,
-	// 3 claim cache lookup fails, 4 claim dropped from the cache first (so its create hits AlreadyExists)
+	// 3 claim cache lookup fails, 4 claim dropped from the cache first (so its create hits AlreadyExists),
+	// 5 the pod create is rejected with 403 Forbidden (quota), 6 with 422 Invalid
 	PVCFault int `json:"pvc_fault,omitempty"`
 	PVCIdx   int `json:"pvc_idx,omitempty"` // which claim create / lookup of the reconcile is hit (0-based)
 }
@@ -717,6 +718,7 @@ func (s *Sys) Reconcile(op *Op) *sim.Record {
 	n := 0
 	faultDone, interDone := false, false
 	pvcCreates, pvcLookups := 0, 0
+	podRejected := false
 	s.PVCFaulted = nil
 	if op.PVCFault == 3 || op.PVCFault == 4 {
 		c.PVCListerHook = func(name string) error {
@@ -737,6 +739,14 @@ func (s *Sys) Reconcile(op *Op) *sim.Record {
 	}
 	c.Intercept = func(a *sim.Action) *sim.Fault {
 		n++
+		if (op.PVCFault == 5 || op.PVCFault == 6) && a.Verb == "create" && a.Resource == "pods" && !podRejected {
+			// the API server does not admit the pod: quota exceeded (403) or an invalid object (422)
+			podRejected = true
+			if op.PVCFault == 5 {
+				return &sim.Fault{Err: apierrors.NewForbidden(schema.GroupResource{Resource: "pods"}, a.Name, fmt.Errorf("exceeded quota"))}
+			}
+			return &sim.Fault{Err: apierrors.NewInvalid(schema.GroupKind{Kind: "Pod"}, a.Name, nil)}
+		}
 		if (op.PVCFault == 1 || op.PVCFault == 2) && a.Verb == "create" && a.Resource == "persistentvolumeclaims" {
 			idx := pvcCreates
 			pvcCreates++
